@@ -1,2 +1,41 @@
-(* C07 -- placeholder *)
-From NV Require Import Model.Nucleo.
+(* C07 -- A quiescent matcher converges to the from-scratch result.
+   Protocol half: statements in Spec/NucleoStatements.v, proofs in Proofs/SnapshotFacts.v.
+     C07_converges  in every reachable state (truthful append flags) that is quiescent - UI idle, worker
+                    lock free, the last tick reported `not running`, no edit / restart pending, every item
+                    of the current stream published before that tick began - the snapshot is of the current
+                    stream and pattern, counts every item of the stream, and contains exactly the items a
+                    from-scratch scan of the whole stream matches (scores and order: C06_snapshot).
+   Text half (what makes an append flag truthful): Spec/AppendSpec.v, Proofs/AppendFacts.v.
+     C07_append_refines   whenever MultiPattern::reparse decides `Update` for old ++ suffix, every haystack
+                          matched by the new atoms is matched by the old atoms (outside known finding K3);
+     C07_append_K3_refuted, C07_append_old_condition_refuted  the machine-checked witnesses of the known
+                          finding and of the defect repaired by the fix: commits. *)
+From Coq Require Import NArith List Bool.
+From NV Require Import Model.Nucleo Spec.NucleoStatements Proofs.SnapshotFacts.
+From NV Require Import Spec.AppendSpec Proofs.AppendFacts Proofs.AppendRun.
+Import Nucleo.
+Import ListNotations.
+Local Open Scope N_scope.
+
+Theorem C07_converges : forall sc ln, C07_converges_weak_stmt sc ln.
+Proof. exact SnapshotFacts.C07_converges_weak. Qed.
+Theorem C07_unbounded_refuted : forall sc ln, sc 1 0 PLACEHOLDER <> None -> ~ C07_converges_stmt sc ln.
+Proof. exact SnapshotFacts.C07_converges_false. Qed.
+
+(* text half *)
+Theorem C07_append_refines : C07_append_refines_stmt.
+Proof. exact AppendFacts.C07_append_refines. Qed.
+(* the same against the matcher model `run` (what Pattern::score computes), all atom kinds *)
+Theorem C07_append_refines_run : C07_append_refines_run_stmt.
+Proof. exact AppendRun.C07_append_refines_run. Qed.
+Theorem C07_append_K3_refuted : ~ C07_append_known_K3_stmt.
+Proof. exact AppendFacts.C07_append_K3_refuted. Qed.
+Theorem C07_append_old_condition_refuted : ~ C07_append_prefix_dollar_old_stmt.
+Proof. exact AppendFacts.C07_append_old_condition_refuted. Qed.
+
+Print Assumptions C07_converges.
+Print Assumptions C07_append_refines.
+Print Assumptions C07_append_refines_run.
+Print Assumptions C07_append_K3_refuted.
+Print Assumptions C07_append_old_condition_refuted.
+Print Assumptions C07_unbounded_refuted.
